@@ -321,6 +321,10 @@ pub trait Part: Send + Sync {
     -> Option<Violation>;
     fn replay(&self, ctx: &Ctx, case: &Value) -> Verdict;
     fn generate(&self, ctx: &Ctx, idx: u64) -> Value;
+    /// Coverage-guided entry: `bytes` are the generator's entropy (proptest's pass-through RNG), so
+    /// a libFuzzer mutation of the input is a mutation of the generated case. Returns the case and
+    /// the failure if the oracle fails in a way that is not a listed finding.
+    fn run_bytes(&self, ctx: &Ctx, bytes: &[u8], stats: &mut Stats) -> Option<(Value, Failure)>;
 }
 
 pub struct GenPart<T, S, G, F>
@@ -518,6 +522,35 @@ where
             idx += ctx.nworkers as u64;
         }
         None
+    }
+    fn run_bytes(&self, ctx: &Ctx, bytes: &[u8], stats: &mut Stats) -> Option<(Value, Failure)> {
+        let strat = (self.strat)(ctx);
+        let cfg = Config { failure_persistence: None, ..Config::default() };
+        // The pass-through RNG yields zeros once its data are used up, and rand's uniform sampling
+        // rejects the low end of its range: on a zero stream it never returns. The input is
+        // therefore continued with a pseudo-random stream derived from it.
+        let mut buf = bytes.to_vec();
+        let mut h = std::collections::hash_map::DefaultHasher::new();
+        bytes.hash(&mut h);
+        let mut x = h.finish() | 1;
+        while buf.len() < bytes.len() + (256 << 10) {
+            buf.extend_from_slice(&splitmix(&mut x).to_le_bytes());
+        }
+        let mut runner = TestRunner::new_with_rng(cfg, TestRng::from_seed(RngAlgorithm::PassThrough, &buf));
+        let tree = strat.new_tree(&mut runner).ok()?;
+        let value = tree.current();
+        stats.cases += 1;
+        stats.cur_nontrivial = false;
+        match (self.test)(ctx, &value, stats) {
+            Verdict::Fail(f) => match ctx.known_sig(&f.sig) {
+                Some(k) => {
+                    *stats.known_hits.entry(k.id.clone()).or_default() += 1;
+                    None
+                }
+                None => Some((serde_json::to_value(&value).unwrap_or(Value::Null), f)),
+            },
+            _ => None,
+        }
     }
     fn replay(&self, ctx: &Ctx, case: &Value) -> Verdict {
         let v: T = match serde_json::from_value(case.clone()) {
